@@ -17,6 +17,7 @@ import (
 	"github.com/ethereum/go-ethereum/common"
 
 	"github.com/haqq-network/haqq/contracts"
+	"github.com/haqq-network/haqq/x/liquidvesting"
 	lvtypes "github.com/haqq-network/haqq/x/liquidvesting/types"
 	vestingtypes "github.com/haqq-network/haqq/x/vesting/types"
 )
@@ -332,6 +333,7 @@ func lvRandomCases(r *rand.Rand, n int) []lvCase {
 // history mode
 
 type lvEnv struct {
+	paid []any // set by a redeem step: what the recipient account itself locks at the critical instants
 	*Env
 	cfg   *lvCfg
 	names []string
@@ -485,19 +487,131 @@ func (e *lvEnv) obs() M {
 			return bigStr(e.App.BankKeeper.LockedCoins(e.Ctx, e.keys[n].Addr).AmountOf(lvND))
 		}()
 	}
-	return M{"locked": locked}
+	o := M{"locked": locked}
+	if e.paid != nil {
+		o["paid"] = e.paid
+	}
+	return o
+}
+
+// lvLockedAt asks an account object what it locks at instant off (seconds from GenesisTime): the
+// account's own LockedCoins(time), i.e. the real reading rule including start and end time
+func lvLockedAt(acc authtypes.AccountI, off int64) (res string) {
+	defer func() {
+		if r := recover(); r != nil {
+			res = "-1" // a getter that panics on a broken record: nothing it could lock is credited
+		}
+	}()
+	va, ok := acc.(*vestingtypes.ClawbackVestingAccount)
+	if !ok {
+		return "0"
+	}
+	return bigStr(va.LockedCoins(lvTime(off)).AmountOf(lvND))
+}
+
+func lvCritAdd(set map[int64]bool, ts ...int64) {
+	for _, t := range ts {
+		set[t-1], set[t], set[t+1] = true, true, true
+	}
+}
+
+func lvCritPeriods(set map[int64]bool, start int64, ps sdkvesting.Periods) {
+	lvCritAdd(set, start)
+	t := start
+	for _, p := range ps {
+		t += p.Length
+		lvCritAdd(set, t)
+	}
+}
+
+func lvCritAccount(set map[int64]bool, acc authtypes.AccountI) {
+	if va, ok := acc.(*vestingtypes.ClawbackVestingAccount); ok {
+		st := va.StartTime.Unix() - GenesisTime.Unix()
+		lvCritPeriods(set, st, va.LockupPeriods)
+		lvCritPeriods(set, st, va.VestingPeriods)
+		lvCritAdd(set, va.EndTime-GenesisTime.Unix())
+	}
+}
+
+func lvCritDenom(set map[int64]bool, d lvtypes.Denom, found bool) {
+	if found {
+		lvCritPeriods(set, d.StartTime.Unix()-GenesisTime.Unix(), d.LockupPeriods)
+		lvCritAdd(set, d.EndTime.Unix()-GenesisTime.Unix())
+	}
+}
+
+// exportImport restarts the liquidvesting module from its own exported genesis: ExportGenesis, the
+// document through the JSON codec (as a genesis file), Validate, the module store wiped, InitGenesis.
+// Bank, erc20 and auth state stay (their own genesis documents would carry them).
+func (e *lvEnv) exportImport() (err error) {
+	cctx, write := e.Ctx.CacheContext()
+	defer func() {
+		if r := recover(); r != nil {
+			err = fmt.Errorf("panic: %v", r)
+		}
+	}()
+	k := e.App.LiquidVestingKeeper
+	gs := liquidvesting.ExportGenesis(cctx, k)
+	bz := e.App.AppCodec().MustMarshalJSON(gs)
+	var in lvtypes.GenesisState
+	e.App.AppCodec().MustUnmarshalJSON(bz, &in)
+	if err := in.Validate(); err != nil {
+		return err
+	}
+	store := cctx.KVStore(e.App.GetKey(lvtypes.StoreKey))
+	var keys [][]byte
+	it := store.Iterator(nil, nil)
+	for ; it.Valid(); it.Next() {
+		keys = append(keys, append([]byte{}, it.Key()...))
+	}
+	it.Close()
+	for _, key := range keys {
+		store.Delete(key)
+	}
+	liquidvesting.InitGenesis(cctx, k, in)
+	write()
+	return nil
 }
 
 func (e *lvEnv) step(st lvStep) (bool, string) {
 	a := st.Args
 	addr := func(k string) sdk.AccAddress { return e.keys[a[k].(string)].Addr }
 	e.Ctx = e.Ctx.WithBlockTime(lvTime(lvInt(a["t"])))
+	e.paid = nil
 	switch st.Ev {
+	case "export_import":
+		err := e.exportImport()
+		return err == nil, errStr(err)
 	case "liquidate":
 		_, err := e.Exec(lvtypes.NewMsgLiquidate(addr("from"), addr("to"), sdk.NewCoin(lvND, lvAmt(a["amt"].(string)))))
 		return err == nil, errStr(err)
 	case "redeem":
-		_, err := e.Exec(lvtypes.NewMsgRedeem(addr("from"), addr("to"), sdk.NewCoin(a["denom"].(string), lvAmt(a["amt"].(string)))))
+		to := addr("to")
+		preAcc := e.App.AccountKeeper.GetAccount(e.Ctx, to)
+		preDen, preFound := e.App.LiquidVestingKeeper.GetDenom(e.Ctx, a["denom"].(string))
+		_, err := e.Exec(lvtypes.NewMsgRedeem(addr("from"), to, sdk.NewCoin(a["denom"].(string), lvAmt(a["amt"].(string)))))
+		if err == nil {
+			// what the recipient account itself locks, before and after, at every critical instant from now on
+			postAcc := e.App.AccountKeeper.GetAccount(e.Ctx, to)
+			postDen, postFound := e.App.LiquidVestingKeeper.GetDenom(e.Ctx, a["denom"].(string))
+			set := map[int64]bool{}
+			lvCritAdd(set, e.now())
+			lvCritAccount(set, preAcc)
+			lvCritAccount(set, postAcc)
+			lvCritDenom(set, preDen, preFound)
+			lvCritDenom(set, postDen, postFound)
+			var ts []int64
+			for t := range set {
+				if t >= e.now() {
+					ts = append(ts, t)
+				}
+			}
+			sort.Slice(ts, func(i, j int) bool { return ts[i] < ts[j] })
+			e.paid = make([]any, 0, len(ts))
+			for _, t := range ts {
+				e.paid = append(e.paid, M{"t": t, "pre": lvLockedAt(preAcc, t), "post": lvLockedAt(postAcc, t)})
+			}
+		}
 		return err == nil, errStr(err)
 	case "transfer":
 		// haqq's bank MsgSend moves a coin that has a token pair on the ERC20 side (it converts what is
@@ -668,6 +782,12 @@ func (e *lvEnv) randomStep(r *rand.Rand) lvStep {
 	kind := r.Intn(10)
 	if len(liveDenoms) == 0 && kind >= 4 && r.Intn(4) != 0 {
 		kind = 0
+	}
+	// a restart from the exported genesis: now and then, and preferably when a fully redeemed denom has
+	// left a gap below a live one
+	gap := len(liveDenoms) > 0 && liveDenoms[len(liveDenoms)-1] != lvtypes.DenomBaseNameFromID(uint64(len(liveDenoms)-1))
+	if r.Intn(14) == 0 || (gap && r.Intn(4) == 0) {
+		return lvStep{"export_import", M{"t": t}}
 	}
 	switch {
 	case kind < 4:
